@@ -4,6 +4,7 @@ import (
 	"fmt"
 	"math/rand/v2"
 	"net"
+	"os"
 	"reflect"
 	"sort"
 	"strings"
@@ -22,9 +23,9 @@ const unjudged = "\x00UNJUDGED"
 type acc struct {
 	name string
 	code byte
-	ref  func(v []byte) string              // reference interpretation of the raw value (v==nil ⇒ absent)
-	got  func(p *dhcpv4.DHCPv4) string      // canonical rendering of the accessor's result
-	gen  func(r *rand.Rand, n int) []byte   // structure-aware raw values of length about n (may be nil)
+	ref  func(v []byte) string            // reference interpretation of the raw value (v==nil ⇒ absent)
+	got  func(p *dhcpv4.DHCPv4) string    // canonical rendering of the accessor's result
+	gen  func(r *rand.Rand, n int) []byte // structure-aware raw values of length about n (may be nil)
 }
 
 const defDur = 12345 * time.Second
@@ -517,6 +518,7 @@ type replay struct {
 }
 
 func judge(r *mon.Rec, a *acc, v []byte, via string) {
+	r.Current(map[string]any{"accessor": a.name, "value": mon.HexBytes(v), "via": via})
 	r.Eval(1)
 	p := &dhcpv4.DHCPv4{Options: dhcpv4.Options{}}
 	rp := replay{a.name, mon.Hex(v), via}
@@ -610,6 +612,9 @@ func fills(r *rand.Rand, n int, k int) []byte {
 func TestCheck(t *testing.T) {
 	r := mon.New("C17")
 	defer r.Flush()
+	if os.Getenv("VERIF_REPLAY") == "" {
+		r.Watchdog(60 * time.Second)
+	}
 	byName := map[string]*acc{}
 	for i := range accessors {
 		byName[accessors[i].name] = &accessors[i]
@@ -785,7 +790,10 @@ func setGet(r *mon.Rec, idx int) {
 		p.UpdateOption(dhcpv4.OptMessageType(mt))
 		p.UpdateOption(dhcpv4.OptAutoConfigure(ac))
 		want = fmt.Sprint(byte(mt), byte(ac), true)
-		get = func(p *dhcpv4.DHCPv4) string { a, ok := p.AutoConfigure(); return fmt.Sprint(byte(p.MessageType()), byte(a), ok) }
+		get = func(p *dhcpv4.DHCPv4) string {
+			a, ok := p.AutoConfigure()
+			return fmt.Sprint(byte(p.MessageType()), byte(a), ok)
+		}
 	case 19:
 		var cs []dhcpv4.OptionCode
 		var w []byte
